@@ -180,4 +180,10 @@ def mutants(ids, seed):
         sys.stdout.flush()
     caught = sum(1 for r in rows if r[2] == 'caught')
     print('selftest-mutants: %d/%d caught' % (caught, len(rows)))
+    if not ids and not os.environ.get('VERIF_OUT_DIR'):
+        with open(os.path.join(core.VERIF, 'evidence', 'selftest-mutants.txt'), 'w') as f:
+            f.write('selftest-mutants, budget %s s per mutant, lark tree %s\n' % (budget, core.lark_tree_digest()[:16]))
+            for r in rows:
+                f.write('%-4s %-44s %s  %s\n' % r)
+            f.write('%d/%d caught\n' % (caught, len(rows)))
     return 0 if caught == len(rows) else (rc or 1)
